@@ -396,3 +396,53 @@ func VF_C14_positions() {
 	}
 	vfReach("C14_positions")
 }
+
+func init() { vfRegister("VF_C02_arg_independence", VF_C02_arg_independence) }
+
+func vfAnyShort(name string) any {
+	v := vfAny(name, 0)
+	if s, ok := v.(string); ok {
+		vfAssume(vfRuneLen(s) <= 3 && !strings.Contains(s, "%") && !vfInRe(s, `\A(@|!|\$)`))
+	}
+	return v
+}
+
+// VF_C02_arg_independence: every argument of a list is compiled on its own:
+// what a position receives does not depend on the other arguments of the
+// list (constructor arguments, call arguments, decorator arguments).
+func VF_C02_arg_independence() {
+	a0, a1 := vfAnyShort("a0"), vfAnyShort("a1")
+	w := vfWire()
+	e0, err0 := w.args.ResolveArg(a0)
+	e1, err1 := w.args.ResolveArg(a1)
+	vfAssume(err0 == nil && err1 == nil)
+	c := "New"
+	var o output.Output
+	var got []output.Arg
+	switch vfChoice("position", 3) {
+	case 0:
+		err := vfWire().services.Process(input.Input{Services: map[string]input.Service{"svc": {Constructor: &c, Args: []any{a0, a1}}}}, &o)
+		vfAssert(err == nil && len(o.Services) == 1, "service compiles")
+		if len(o.Services) == 1 {
+			got = o.Services[0].Args
+		}
+	case 1:
+		err := vfWire().services.Process(input.Input{Services: map[string]input.Service{"svc": {Constructor: &c, Calls: []input.Call{{Method: "M", Args: []any{a0, a1}}}}}}, &o)
+		vfAssert(err == nil && len(o.Services) == 1 && len(o.Services[0].Calls) == 1, "service compiles")
+		if len(o.Services) == 1 && len(o.Services[0].Calls) == 1 {
+			got = o.Services[0].Calls[0].Args
+		}
+	case 2:
+		err := vfWire().decs.Process(input.Input{Decorators: []input.Decorator{{Tag: "t", Decorator: "D", Args: []any{a0, a1}}}}, &o)
+		vfAssert(err == nil && len(o.Decorators) == 1, "decorator compiles")
+		if len(o.Decorators) == 1 {
+			got = o.Decorators[0].Args
+		}
+	}
+	vfAssert(len(got) == 2, "both arguments are compiled")
+	if len(got) == 2 {
+		vfAssert(got[0].Code == e0.Code, "the first argument is what it would be alone")
+		vfAssert(got[1].Code == e1.Code, "the second argument is what it would be alone")
+	}
+	vfReach("C02_arg_independence")
+}
